@@ -244,3 +244,36 @@ def c17(v, tier, seed):
     v.cov["rule"] = ("for every group of views sharing fields: every ordered pair (A,B) of views x shared field x values x images: write through A, "
                      "read through B on the same buffer; SharedWellFormed checked as an ASSUME")
     v.cov["distinct_nontrivial"] = v.cov.get("histories_replayed", 0)
+
+
+@check("C06")
+def c06(v, tier, seed):
+    import can
+    rnd = random.Random(seed)
+    wd, ex, bind = setup(v)
+    q = tier == "quick"
+    lens = list(range(0, 65))
+    for scn, ls, nbg in (("create", lens, 2 if q else 3), ("split", lens if not q else list(range(0, 13)) + [31, 32, 33, 63, 64], 1 if q else 2),
+                         ("long", list(range(65, 2029, 1 if not q else 37)) + [2027, 2028], 1)):
+        kinds = ["full", "brief"]
+        if scn == "long": ls = [x for x in ls if x <= 2028]
+        res = run_tlc("GenCan", can.cfg(scn, ls, kinds, nbg), wd)
+        v.add_tlc("GenCan/" + scn, res)
+        if not res.ok: raise Infra("CanBuild violates its own theorem (%s):\n%s" % (scn, (res.violation or "")[-1500:]))
+        vecs = [x for x in res.emitted if not (scn == "long" and x["kind"] == "brief" and x["len"] > 2036)]
+        st = can.replay(v, ex, vecs, rnd)
+        v.cov["evaluations"] += st["executed"]
+        v.cov.setdefault("replayed_transitions", 0); v.cov["replayed_transitions"] += len(vecs)
+        if vecs: v.sample({"tlc_transition": vecs[len(vecs) // 2]})
+    cmds, evs = can.drive(rnd, 6000 if q else 150000)
+    outs = ex.run(cmds)
+    done = can.finish(evs, outs, v)
+    v.cov["evaluations"] += len(cmds)
+    cfgt = open(os.path.join(SPEC, "CanTrace.cfg")).read()
+    pdu.validate_events(v, wd, pdu.shard(done, 6 if q else 16), "C06", "random-builds", module="CanTrace", cfg=cfgt,
+                        keyfn=lambda e: "can kind=%s op=%s kind=trace" % (e["kind"], e["op"]))
+    if done: v.sample({"trace_event": {k: done[0][k] for k in ("kind", "op", "id", "fd", "len", "ret")}})
+    v.cov["rule"] = ("TLC: every payload length 0..64 x 9 identifiers around the 11/29/32-bit boundaries x {classic, FD} x {full, brief} x backgrounds x 2 header pre-states "
+                     "(create; copy/idfields/finalize composition; finalize alone up to the 9-bit limit); replayed on arenas ending exactly at the padded message "
+                     "against a guard page; random payloads/identifiers validated by CanTrace")
+    v.cov["distinct_nontrivial"] = v.cov.get("replayed_transitions", 0)
